@@ -33,6 +33,8 @@ Idx(seq, x) == CHOOSE i \in 1..Len(seq) : seq[i] = x
 Has(seq, x) == \E i \in 1..Len(seq) : seq[i] = x
 Distinct(seq) == \A i, j \in 1..Len(seq) : i # j => seq[i] # seq[j]
 Perms(s) == {q \in [1..Len(s) -> ToSet(s)] : \A i, j \in 1..Len(s) : i # j => q[i] # q[j]}
+\* TLC evaluates [k \in S |-> e] lazily (e again at every application); concatenation yields an explicit tuple
+Strict(s) == s \o <<>>
 
 RECURSIVE ProdSeq(_)
 ProdSeq(d) == IF d = <<>> THEN 1 ELSE Head(d) * ProdSeq(Tail(d))
@@ -46,12 +48,13 @@ Unrank(d, k) == [i \in 1..Len(d) |-> ((k \div Stride(d, i)) % d[i]) + 1]
 \* `cells` is row-major over the variable sequence `from`; the result lists the same map row-major over `to`
 \* (a permutation of `from`); c = cardinality of every variable.
 Relayout(cells, from, to, c) ==
-    LET dF == [i \in 1..Len(from) |-> c[from[i]]]
-        dT == [i \in 1..Len(to) |-> c[to[i]]]
-        sT == [i \in 1..Len(to) |-> Stride(dT, i)]
-        pos == [i \in 1..Len(from) |-> Idx(to, from[i])]
-    IN [k \in 1..ProdSeq(dT) |->
-           cells[OffAcc(dF, [i \in 1..Len(from) |-> (((k - 1) \div sT[pos[i]]) % dT[pos[i]]) + 1], 1, 0) + 1]]
+    LET dF == Strict([i \in 1..Len(from) |-> c[from[i]]])
+        dT == Strict([i \in 1..Len(to) |-> c[to[i]]])
+        sT == Strict([i \in 1..Len(to) |-> Stride(dT, i)])
+        pos == Strict([i \in 1..Len(from) |-> Idx(to, from[i])])
+        src == Strict(cells)
+    IN Strict([k \in 1..ProdSeq(dT) |->
+           src[OffAcc(dF, [i \in 1..Len(from) |-> (((k - 1) \div sT[pos[i]]) % dT[pos[i]]) + 1], 1, 0) + 1]])
 
 \* ------------------------------------------------------------------ models
 Card(m, v) == Len(m.states[v])
@@ -93,11 +96,11 @@ R4(V, t) == IF t = 0 THEN AlienU
             ELSE LET d == V[t].dg IN
                  V[t].ip * 10000 + d[1] * 1000 + d[2] * 100 + d[3] * 10 + d[4]
                  + (IF d[5] > 5 \/ (d[5] = 5 /\ RestNonZero(d)) THEN 1 ELSE 0)
-R4Seq(V, cells) == [k \in 1..Len(cells) |-> R4(V, cells[k])]
+R4Seq(V, cells) == Strict([k \in 1..Len(cells) |-> R4(V, cells[k])])
 
 \* ------------------------------------------------------------------ writing
 VarDecls(m) == [i \in 1..Len(m.nodes) |-> [name |-> m.nodes[i], states |-> m.states[m.nodes[i]]]]
-Labels(m, sc, j) == LET ix == Unrank(Dims(m, sc), j - 1) IN [i \in 1..Len(sc) |-> m.states[sc[i]][ix[i]]]
+Labels(m, sc, j) == LET ix == Strict(Unrank(Dims(m, sc), j - 1)) IN Strict([i \in 1..Len(sc) |-> m.states[sc[i]][ix[i]]])
 ChildFastest(m, f) == Relayout(f.cells, f.scope, Pars(f) \o <<Child(f)>>, CardFn(m))
 
 \* BIF: variables and probability blocks sorted by name; a root has `table` (its states in order); otherwise one row
@@ -156,15 +159,17 @@ BlocksOK(vs, blocks) ==        \* blocks: Seq of records with child, parents
                                  /\ ToSet(<<blocks[i].child>> \o blocks[i].parents) \subseteq ToSet(DeclNames(vs))
 BlockSize(vs, b) == ProdSeq([k \in 1..(Len(b.parents) + 1) |-> Len(DeclStates(vs)[(b.parents \o <<b.child>>)[k]])])
 
-ParLabels(st, ps, j) == LET ix == Unrank([k \in 1..Len(ps) |-> Len(st[ps[k]])], j - 1) IN [k \in 1..Len(ps) |-> st[ps[k]][ix[k]]]
+ParLabels(st, ps, j) == LET ix == Strict(Unrank([k \in 1..Len(ps) |-> Len(st[ps[k]])], j - 1)) IN Strict([k \in 1..Len(ps) |-> st[ps[k]][ix[k]]])
+AllParLabels(st, ps) == Strict([j \in 1..ProdSeq([k \in 1..Len(ps) |-> Len(st[ps[k]])]) |-> ParLabels(st, ps, j)])
 ReadableBIF(doc) ==
     /\ BlocksOK(doc.vars, doc.probs)
     /\ LET st == DeclStates(doc.vars) IN \A i \in 1..Len(doc.probs) : LET p == doc.probs[i] cc == Len(st[p.child]) IN
          IF p.parents = <<>> THEN Len(p.table) = cc /\ p.rows = <<>>
          ELSE /\ p.table = <<>>
               /\ \A r \in 1..Len(p.rows) : Len(p.rows[r].cells) = cc
-              /\ \A j \in 1..ProdSeq([k \in 1..Len(p.parents) |-> Len(st[p.parents[k]])]) :
-                    Cardinality({r \in 1..Len(p.rows) : p.rows[r].label = ParLabels(st, p.parents, j)}) = 1
+              /\ LET labs == AllParLabels(st, p.parents) IN
+                    /\ Len(p.rows) = Len(labs)
+                    /\ {p.rows[r].label : r \in 1..Len(p.rows)} = ToSet(labs)
 \* a row denotes the child's distribution for the parent configuration NAMED by its label (row order is free)
 ReadBIF(doc) ==
     LET st == DeclStates(doc.vars) c == [n \in DOMAIN st |-> Len(st[n])] IN
@@ -173,9 +178,10 @@ ReadBIF(doc) ==
         LET p == doc.probs[i] sc == <<p.child>> \o p.parents cc == c[p.child] IN
         [scope |-> sc,
          cells |-> IF p.parents = <<>> THEN p.table
-                   ELSE LET n == ProdSeq([k \in 1..Len(p.parents) |-> c[p.parents[k]]])
-                            rowIdx == [j \in 1..n |-> CHOOSE r \in 1..Len(p.rows) : p.rows[r].label = ParLabels(st, p.parents, j)]
-                            flat == [k \in 1..(n * cc) |-> p.rows[rowIdx[((k - 1) \div cc) + 1]].cells[((k - 1) % cc) + 1]]
+                   ELSE LET labs == AllParLabels(st, p.parents)
+                            n == Len(labs)
+                            rowIdx == Strict([j \in 1..n |-> CHOOSE r \in 1..Len(p.rows) : p.rows[r].label = labs[j]])
+                            flat == Strict([k \in 1..(n * cc) |-> p.rows[rowIdx[((k - 1) \div cc) + 1]].cells[((k - 1) % cc) + 1]])
                         IN Relayout(flat, p.parents \o <<p.child>>, sc, c)]]]
 ReadableFlat(vs, blocks) == BlocksOK(vs, blocks) /\ \A i \in 1..Len(blocks) : Len(blocks[i].cells) = BlockSize(vs, blocks[i])
 ReadFlat(vs, blocks) ==        \* XMLBIF and NET: child fastest, parents in listed order
@@ -244,7 +250,6 @@ AsObsFams(r) == [i \in 1..Len(r.fams) |-> [scope |-> r.fams[i].scope, st |-> [j 
 ModelDiff(r, e) == Diff(ToSet(r.nodes), Edges(r), AsObsFams(r), e)
 
 \* ------------------------------------------------------------------ documents: observed vs prescribed
-Proj2(s, F(_)) == [i \in 1..Len(s) |-> F(s[i])]
 HeadsOf(bs) == [i \in 1..Len(bs) |-> <<bs[i].child, bs[i].parents>>]
 DeclDiff(o, e) == IF DeclNames(o) # DeclNames(e) THEN (IF ToSet(DeclNames(o)) = ToSet(DeclNames(e)) THEN {"write.var_order"} ELSE {"write.vars"})
                   ELSE IF o # e THEN {"write.states"} ELSE {}
